@@ -304,6 +304,16 @@ def unwrap_or(E, st, frame, b, t, c, args):
     good = 0 if is_res else 1
     if vs is None:
         return ('T', E.dest_ty(frame, t), E.site(frame, b, 'uo'))
+    if getattr(E, 'split_unwrap_or', False) and good in vs and (1 - good) in vs:
+        # opt-in (C13-P3): keep "the payload" and "the default" as two states instead of joining the two values
+        out = []
+        e = E.expand(args[0])
+        for which in (good, 1 - good):
+            s2 = st.copy()
+            if e[0] == 'E' and e[1] is not None:
+                s2.erf[e[1]] = frozenset({which})
+            out.append((s2, E.deep_resolve(st, vs[good][0]) if which == good else E.deep_resolve(st, args[1])))
+        return out
     r = BOT
     if good in vs:
         r = join(r, E.deep_resolve(st, vs[good][0]))
@@ -1188,6 +1198,12 @@ def vec_clear(E, st, frame, b, t, c, args):
         else:
             ln = st.resolve(v[1])
             n = E.scalar(st, args[1], arg_ty(E, frame, t, 1))
+            if 'String' in (c.get('rself') or ''):
+                # String::truncate(n) panics when n < len and byte n is not a char boundary (seed C17-s11); the byte
+                # contents of a String are not tracked, so only n == 0 or n >= len is safe
+                safe = n[0] == 'I' and (n[2] == 0 or n[1] >= ln[2])
+                oblig(E, frame, b, t, safe, 'String::truncate(%s) on a string of length %s: panics unless the new length is a char boundary'
+                      % (A.show_val(n)[:40], A.show_val(ln)[:40]))
             hi = min(ln[2], n[2]) if n[0] == 'I' else ln[2]
             E.write_lv(st, lv, ('S', mk_int(min(ln[1], n[1] if n[0] == 'I' else 0), hi), v[2], None))
     return ('A', ())
